@@ -114,6 +114,9 @@ def make(ctx, pool, langs, shapes=None):
     items, rej = pipeline.make_items(ctx.vapi, pool, langs, ctx.seed, shapes)
     for p, text, r in rej:
         ctx.counters['protocol-rejected-by-compiler (C12 domain)'] += 1
+        # a protocol of the pool is refused: nothing is observed for it here. That is C12's subject (its acceptance lane compiles the
+        # same pool), but it must not pass silently in this check either
+        ctx.inconc('pool protocol %s is rejected by the compiler (see C12): %s' % (p.tag, str(r.get('diags') or r.get('syn_err') or r.get('died'))[:200]))
     return items
 
 
@@ -765,6 +768,20 @@ def c07(ctx):
                     if hit and not re.search(r'"[^"]*(Unsupported|unknown)[^"]*"', line):
                         triage_wire(ctx, 'C07', lang, it, 'placeholder-text', '%s:%d contains %r: %s' % (name, ln, hit, line.strip()[:120]), {'file': name, 'line': ln})
                         break
+    # every declared packet has its type - also a packet nothing refers to (the drivers only reach what the root reaches)
+    decl = {'go': r'\btype\s+%s\s+struct\b', 'rust': r'\bpub\s+struct\s+%s\b', 'java': r'\bclass\s+%s\b', 'python': r'^class\s+%s\b', 'cpp': r'\bstruct\s+%s\b'}
+    for it in items:
+        if it.tag.startswith('Id'):
+            continue
+        for lang in LANGS5:
+            if lang not in it.files or lang in it.gen_errors or lang in it.gen_panics:
+                continue
+            blob = '\n'.join(d.decode('utf-8', 'replace') for n, d in sorted(it.files[lang].items()) if 'test' not in n.lower())
+            for pk in it.proto.packets:
+                ctx.counters['declared-type-lookups'] += 1
+                nm = pk.name if lang in ('go', 'java', 'cpp') else it.camel(pk.name)
+                if not re.search(decl[lang] % re.escape(nm), blob, re.M):
+                    triage_wire(ctx, 'C07', lang, it, 'declared-name-missing', 'no %s type for the declared packet %s in the emitted files %s' % (lang, pk.name, sorted(it.files[lang])[:6]), {'packet': pk.name})
     # tool-chains
     for lang in LANGS5:
         B = pipeline.lane_class(lang)(ctx.scr.dir)
@@ -859,6 +876,24 @@ def test_matches(lang, it, pkname, testname):
 
 # ------------------------------------------------------------------------------------------------ C15
 
+def first_payload_end(lay):
+    """smallest offset at which a match payload that occupies bytes ends (nested payloads included; a huge number when there is none)."""
+    ends = {}
+    for e in lay.items:
+        path = e['path']
+        pos = 0
+        while True:
+            k = path.find('>', pos)
+            if k < 0:
+                break
+            pre = path[:k + 1]
+            lo, hi = ends.get(pre, (e['off'], e['off']))
+            ends[pre] = (min(lo, e['off']), max(hi, e['off'] + e['len']))
+            pos = k + 1
+    cand = [hi for lo, hi in ends.values() if hi > lo]
+    return min(cand) if cand else 1 << 62
+
+
 def c15(ctx):
     from . import lang_lua
     ctx.cov['rule'] = ('protocols: feature matrix + random compositions (byte orders, prefix types, variable-size content before/after nested, repeated and match members); the emitted Lua dissector runs in a Lua 5.3 host '
@@ -890,14 +925,6 @@ def c15(ctx):
             if c is None or not c['ended']:
                 triage_wire(ctx, 'C15', 'lua', it, 'host-died', 'no result for message %d' % i, rep)
                 continue
-            if c['err']:
-                cls = 'lua-error'
-                if 'nil value (global' in c['err']:
-                    cls = 'helper-missing'
-                elif 'out of bounds' in c['err']:
-                    cls = 'range-out-of-bounds'
-                triage_wire(ctx, 'C15', 'lua', it, cls, re.sub(r'/tmp/\S+/', '', c['err'])[:300], rep)
-                continue
             adds = []
             reads = set()
             for e in c['events']:
@@ -908,9 +935,23 @@ def c15(ctx):
                 elif p[0] == 'READ':
                     reads.add((int(p[1]), int(p[2]), p[3]))
             got = sorted([(a[0], a[1], a[2]) for a in adds], key=lambda x: (x[1], x[2]))
+            # the recorded match-offset finding explains drift AFTER the first non-empty match payload only: everything up to
+            # the end of that payload must be attributed correctly even in a protocol that carries the finding's feature
+            pend = first_payload_end(it.ref[i][1])
+            head = [x for x in leaves if x[1] < pend]
+            head_ok = [(x[0], x[1], x[2]) for x in adds][:len(head)] == head        # in the order the dissector added them (a drifted later field sorts into the payload)
+            early = '' if head_ok else '-before-first-payload-end'
+            if c['err']:
+                cls = 'lua-error'
+                if 'nil value (global' in c['err']:
+                    cls = 'helper-missing'
+                elif 'out of bounds' in c['err']:
+                    cls = 'range-out-of-bounds'
+                triage_wire(ctx, 'C15', 'lua', it, cls + early, re.sub(r'/tmp/\S+/', '', c['err'])[:300], rep)
+                continue
             if got != leaves:
                 k = next((n for n, (a, b) in enumerate(zip(got, leaves)) if a != b), min(len(got), len(leaves)))
-                triage_wire(ctx, 'C15', 'lua', it, 'field-ranges-differ', 'field #%d: dissector %s, wire layout %s (%d vs %d fields)' % (
+                triage_wire(ctx, 'C15', 'lua', it, 'field-ranges-differ' + early, 'field #%d: dissector %s, wire layout %s (%d vs %d fields)' % (
                     k, got[k] if k < len(got) else None, leaves[k] if k < len(leaves) else None, len(got), len(leaves)), rep)
                 continue
             # byte order of multi-byte scalar adds
